@@ -61,6 +61,9 @@ type Enum struct {
 	Desc    string        `json:"desc,omitempty"`
 	Prefix  string        `json:"prefix,omitempty"` // "" = default
 	Options []*EnumOption `json:"options"`
+	// ExplicitZero: the zero option is written out (`option UNSPECIFIED`), possibly
+	// with a description; otherwise it is implicit
+	ExplicitZero *EnumOption `json:"explicit_zero,omitempty"`
 }
 
 // Field is an object property, oneof option, entity key / data field, request or
